@@ -150,6 +150,12 @@ func (th *Thread) newFreeToken(tag string) *Token {
 	// the kind is reported in models under <tag>.kind (needed to replay)
 	th.st.nondets = append(th.st.nondets, nondetRec{tag: tag + ".kind", term: mkZext(th.tokKind(tk), 64)})
 	th.st.nondets = append(th.st.nondets, nondetRec{tag: tag + ".ctl", term: mkZext(th.tokAttr("tk_ctl", 8, tk), 64)})
+	// length and leading bytes, so that a replay can build a text with the
+	// same attributes (e.g. an id that collides with a concrete "1")
+	th.st.nondets = append(th.st.nondets, nondetRec{tag: tag + ".len", term: th.tokAttr("tk_len", 64, tk)})
+	for i := 0; i < 4; i++ {
+		th.st.nondets = append(th.st.nondets, nondetRec{tag: tag + ".b", term: mkZext(th.tokAttr(fmt.Sprintf("tk_b%d", i), 8, tk), 64)})
+	}
 	return tk
 }
 
